@@ -631,6 +631,15 @@ impl<'a> G<'a> {
             byron::TxIn::Other(1 + self.r.below(255) as u8, ByteVec::from(self.r.bytes(n)))
         }
     }
+    pub fn byron_twit(&mut self) -> byron::Twit {
+        let bv = |g: &mut Self, max: usize| { let n = g.r.usize_below(max); ByteVec::from(g.r.bytes(n)) };
+        match self.r.below(4) {
+            0 => byron::Twit::PkWitness(CborWrap((bv(self, 70), bv(self, 70)))),
+            1 => byron::Twit::ScriptWitness(CborWrap(((self.r.below(65536) as u16, bv(self, 40)), (self.r.below(65536) as u16, bv(self, 40))))),
+            2 => byron::Twit::RedeemWitness(CborWrap((bv(self, 40), bv(self, 70)))),
+            _ => byron::Twit::Other(3 + self.r.below(253) as u8, bv(self, 40)),
+        }
+    }
     pub fn byron_txout(&mut self) -> byron::TxOut {
         byron::TxOut { address: self.byron_address(), amount: self.u64() }
     }
